@@ -50,6 +50,7 @@ type mItemObs struct {
 type msgsObs struct {
 	Pt, Sender, Msg string
 	Inflight        bool
+	Held            bool // an honest update of the victim waits for a silent peer (its machine mutex is held for 30 s) while the messages arrive
 	SetupErr        string
 	Stage           string
 	Items           []mItemObs
@@ -83,7 +84,7 @@ func msgsExec(mode msgsMode) func(t *testing.T, ssc schedrun.Scenario, o vsched.
 	return func(t *testing.T, ssc schedrun.Scenario, o vsched.Options) (*vsched.Sched, any) {
 		ptFull, sender, names := splitCase(ssc.Name)
 		pt, variant, _ := strings.Cut(ptFull, "~")
-		obs := &msgsObs{Pt: pt, Sender: sender, Msg: names, Inflight: variant == "inflight", Stage: "setup"}
+		obs := &msgsObs{Pt: pt, Sender: sender, Msg: names, Inflight: variant == "inflight", Held: variant == "held", Stage: "setup"}
 		// "~seq": the messages are delivered 60 s apart; "~gap": 11 s apart (just longer than the 10 s
 		// the client waits for a matching funding / settlement proposal)
 		gap := map[string]time.Duration{"seq": 60 * time.Second, "gap": 11 * time.Second}[variant]
@@ -109,10 +110,14 @@ func msgsExec(mode msgsMode) func(t *testing.T, ssc schedrun.Scenario, o vsched.
 			}
 			// Nothing the victim answers reaches the real M (the harness speaks for M now). With an honest
 			// update of the victim in flight, requests pass and only responses are dropped.
+			vRequestOut := false
 			w.Bus.Drop = func(e *wire.Envelope) bool {
 				if w.partyOf(e.Sender) == V.Idx {
-					if _, isReq := e.Msg.(*client.ChannelUpdateMsg); obs.Inflight && isReq {
-						return false
+					if _, isReq := e.Msg.(*client.ChannelUpdateMsg); isReq {
+						vRequestOut = true
+						if obs.Inflight {
+							return false
+						}
 					}
 					if sc.B != nil && w.partyOf(e.Recipient) == sc.B.Idx {
 						return false // hub points: B is an honest real client, the hub's answers reach it
@@ -172,7 +177,21 @@ func msgsExec(mode msgsMode) func(t *testing.T, ssc schedrun.Scenario, o vsched.
 					}
 				}
 			}
-			if obs.Inflight {
+			if obs.Held {
+				// The victim proposes an honest update; the request is lost, the peer stays silent: the victim's
+				// Update holds the machine mutex until its 30 s context ends. The crafted messages arrive while
+				// it waits (their handlers give up on the mutex after 10 s).
+				done := make(chan struct{}, 1)
+				vsched.GoNamed("v-update", func() {
+					ctx, cancel := context.WithTimeout(context.Background(), 30*time.Second)
+					defer cancel()
+					obs.InflightRes = classify(sc.led.Update(ctx, pay(int(sc.led.Idx()), 1, false)))
+					vsched.Send(done, struct{}{})
+				})
+				vsched.WaitCond("await-victim-request", func() bool { return vRequestOut })
+				injectAll()
+				vsched.Recv(done)
+			} else if obs.Inflight {
 				done := make(chan struct{}, 2)
 				vsched.GoNamed("v-update", func() {
 					ctx, cancel := context.WithTimeout(context.Background(), 30*time.Second)
@@ -340,6 +359,7 @@ func c07acceptable(v *mChanView, up *client.ChannelUpdateMsg, pend []pendingAuto
 	}
 	// automatically accepted funding / settlement
 	why := ordinary
+	subWhy := "a sub-allocation with the awaited id is added, but it is not exactly that channel's (amount = sum of its balances, index map as agreed)"
 	balWhy := "the awaited sub-allocation is added / removed, but the balances do not change by exactly each participant's balance in that channel"
 	for _, p := range pend {
 		switch p.Kind {
@@ -350,6 +370,7 @@ func c07acceptable(v *mChanView, up *client.ChannelUpdateMsg, pend []pendingAuto
 			}
 			want := channel.NewSubAlloc(p.ID, p.Bals.Sum(), nil)
 			if !mSameSubAlloc(x, want) {
+				why = subWhy
 				continue
 			}
 			if balancesMoved(cur, to, p.Bals, -1) {
@@ -362,6 +383,7 @@ func c07acceptable(v *mChanView, up *client.ChannelUpdateMsg, pend []pendingAuto
 				continue
 			}
 			if !mSameSubAlloc(x, channel.NewSubAlloc(p.ID, p.Bals.Sum(), p.IndexMap)) {
+				why = subWhy
 				continue
 			}
 			if balancesMoved(cur, to, mapBals(p.Bals, p.IndexMap, n), -1) {
@@ -547,6 +569,10 @@ type msgsPlan struct {
 	// (thorough) all ordered pairs, delivered 11 s apart
 	GapQuick    []gapFamily
 	GapThorough []gapFamily
+	// Held family: every message of these categories (both senders) while an honest update of the
+	// victim waits 30 s for a silent peer, at HeldPts
+	HeldPts  []string
+	HeldCats map[string]bool
 }
 
 type gapFamily struct {
@@ -567,6 +593,13 @@ func msgsScenarios(mode msgsMode, plan msgsPlan) func(res *report.Result) []sche
 					continue
 				}
 				out = append(out, schedrun.Scenario{Name: pt + "/" + c.Sender + "/" + c.Name, Mode: explore.Delay, Bound: 0, MaxSteps: 400000, Weight: 1})
+			}
+		}
+		for _, pt := range plan.HeldPts {
+			for i := range all {
+				if c := &all[i]; plan.HeldCats[c.Cat] && c.applies(pt) {
+					out = append(out, schedrun.Scenario{Name: pt + "~held/" + c.Sender + "/" + c.Name, Mode: explore.Delay, Bound: 0, MaxSteps: 400000, Weight: 2})
+				}
 			}
 		}
 		for _, g := range plan.GapQuick {
@@ -732,7 +765,7 @@ func msgsDescribe(_ schedrun.Scenario, s *vsched.Sched, o any) string {
 	for _, p := range obs.Probes {
 		fmt.Fprintf(&sb, "  probe %s: %s\n", p.What, p.Res)
 	}
-	if obs.Inflight {
+	if obs.Inflight || obs.Held {
 		fmt.Fprintf(&sb, "  in-flight update of the victim: %s\n", obs.InflightRes)
 	}
 	for _, e := range obs.Errs {
